@@ -76,7 +76,8 @@ fn f64_derivative_at(text: &str, prov: Prov, idxs: &[usize], pt: &[f64]) -> Opti
     Some(r)
 }
 
-pub const POINTS: [(f64, f64); 8] = [(0.37, 0.61), (0.83, 0.29), (0.55, 0.92), (0.21, 0.48), (1.7, 2.3), (2.9, 1.3), (1.2, 1.9), (2.4, 2.8)];
+/// (the last three lie outside the positive quadrant: `(x^2)^1.5`, `|x|`-like behaviour)
+pub const POINTS: [(f64, f64); 11] = [(0.37, 0.61), (0.83, 0.29), (0.55, 0.92), (0.21, 0.48), (1.7, 2.3), (2.9, 1.3), (1.2, 1.9), (2.4, 2.8), (-2.75, 0.61), (-0.6, -1.3), (1.4, -0.45)];
 
 fn seed1(vals: &[f64], i: usize) -> Vec<Jet<Fe>> {
     vals.iter().enumerate().map(|(k, v)| if k == i { Jet::variable(Fe::exact(*v)) } else { Jet::constant(Fe::exact(*v)) }).collect()
